@@ -160,7 +160,8 @@ def monotonic_factorization(arr: ArrayType1D) -> Tuple[int, np.ndarray, pd.Index
 
 
 def factorize_range_index(index: pd.RangeIndex) -> tuple[np.ndarray, pd.Index]:
-    codes, labels = index.values - index.start, index
+    # the labels get the name of the group key later on: never hand out the caller's object
+    codes, labels = index.values - index.start, index.copy()
     if index.step != 1:
         codes = codes // index.step
 
